@@ -225,6 +225,9 @@ func calculateMaxCreation(params *datadoghqv1alpha1.ExtendedDaemonSetSpecStrateg
 	if err != nil {
 		return 0, err
 	}
+	if params.SlowStartIntervalDuration.Duration <= 0 {
+		return 0, fmt.Errorf("invalid slowStartIntervalDuration %s: must be greater than zero", params.SlowStartIntervalDuration.Duration)
+	}
 	rollingUpdateDuration := now.Sub(rsStartTime)
 	nbSlowStartSlot := int(rollingUpdateDuration / params.SlowStartIntervalDuration.Duration)
 	result := (1 + nbSlowStartSlot) * startValue
